@@ -142,6 +142,9 @@ pub struct ParseContext {
 /// Files including files deeper than this are taken for a file that includes itself
 pub const MAX_INCLUDE_DEPTH: usize = 32;
 
+/// A source file larger than this is not read
+pub const MAX_SOURCE_SIZE: u64 = 64 * 1024 * 1024;
+
 impl ParseContext {
     pub fn new(
         current_path: PathBuf,
@@ -282,7 +285,16 @@ pub fn parse_file_internal(context: &ParseContext) -> Result<(), Error> {
     }
 
     let mut source = String::new();
-    file.read_to_string(&mut source)?;
+    file.by_ref()
+        .take(MAX_SOURCE_SIZE + 1)
+        .read_to_string(&mut source)?;
+    if source.len() as u64 > MAX_SOURCE_SIZE {
+        bail!(
+            "Cannot read file {} because: it is larger than {} bytes",
+            current_path.to_string_lossy(),
+            MAX_SOURCE_SIZE
+        );
+    }
 
     let include_paths = RefCell::new(include_paths);
 
